@@ -111,6 +111,9 @@ Theorem C18_lru_bounded_concurrent :
 Proof. exact lru_bounded_concurrent. Qed.
 Print Assumptions C18_lru_bounded_concurrent.
 
+(* (both concurrent theorems depend on the ORDER of Add's sections -- verdict map first, recency list second,
+   ModelConc.tstep / section_lock -- which the correspondence run observes on the real code; with the order
+   swapped the statement is false: Examples.swapped_order_leaks) *)
 Theorem C18_no_leak_concurrent :
   forall cp progs sched, 1 <= cp ->
     let '(s, ths) := crun (cinit cp progs) sched in
